@@ -25,6 +25,7 @@ func init() {
 			"R03.7 also: a scalar is bound from data[len(data)-1] (last occurrence) and path parameters from the router's PathUnescape of the captured text (decoded once). " +
 			"R03.7 also: the composite-segment test locates a parameter in the template as \"{name}\"; the value setters never build a 400 parse error; a binder is named after the declared parameter except where Bind re-labels it for struct targets. " +
 			"R03.7 also: the per-item conversion of an array is given no default; R03.6 also: the form media types are recognised on the parsed media type; R03.8 also: request.MultipartForm is read only behind a nil test. " +
+			"R03.7 also: the array default is stored exactly when no items were obtained; R03.5 also: InvalidType is pronounced only after a conversion failed or overflowed. " +
 			"NOT decided: what strconv/swag denote for a literal, the validation rules themselves (go-openapi/validate), default substitution values.",
 		Assumptions: []string{"runtime.Gettable implementations report hasValue only with a non-empty value slice (Values.GetOK and RouteParams.GetOK are checked)"},
 		Run:         runC03,
